@@ -171,6 +171,16 @@ def run_shard(spec, acc):
             if dbx.select(d.pgn, payload) is not d:
                 continue
             line = wire.plain_line(3, d.pgn, 4, 255, payload.to_bytes(nb, "little"))
+            if acc.evaluations % 5 == 0 and qfields:
+                # a decoder WITH preferences has just refused a message of this kind (a field out of range): that is its own
+                # business - the decoder without preferences, asked next, returns SI values
+                fq_ = qfields[acc.evaluations % len(qfields)]
+                bad_ = (payload & ~(fq_.mask << fq_.off)) | (((fq_.mask - 1) if not fq_.signed else ((1 << (fq_.bits - 1)) - 2)) << fq_.off)
+                for dec_ in long_lived[:3]:
+                    try:
+                        dec_.decode_basic_string(wire.plain_line(3, d.pgn, 4, 255, bad_.to_bytes(nb, "little")), already_combined=True)
+                    except Exception:  # noqa: BLE001
+                        acc.count("messages_refused_by_a_decoder_with_preferences_right_before")
             try:
                 m0 = plain.decode_basic_string(line, already_combined=True)
             except Exception:  # noqa: BLE001
